@@ -499,6 +499,14 @@ pub fn make_event(e: &Value) -> EngineEvent<DataKind> {
         })),
         "MarketReconnecting" => EngineEvent::Market(MarketStreamEvent::Reconnecting(exchange_id(ex))),
         "AccountReconnecting" => EngineEvent::Account(AccountStreamEvent::Reconnecting(exchange_id(ex))),
+        // every third order report arrives inside a FULL account snapshot (the re-sync after a reconnect) that lists the
+        // instrument with this one report: for the order it is the same report - in particular an open report about an
+        // order whose cancel is in flight leaves the cancel in flight
+        "OrderSnap" if t.rem_euclid(3) == 0 => account(AccountEventKind::Snapshot(barter_execution::AccountSnapshot {
+            exchange: ExchangeIndex(ex as usize),
+            balances: vec![],
+            instruments: vec![barter_execution::InstrumentAccountSnapshot { instrument: inst, orders: vec![order_snapshot(e)] }],
+        })),
         "OrderSnap" => account(AccountEventKind::OrderSnapshot(Snapshot(order_snapshot(e)))),
         "CancelResp" => account(AccountEventKind::OrderCancelled(OrderResponseCancel {
             key: key_of(e),
